@@ -92,8 +92,10 @@ def abstract_ids(basis_tree, nodes):
 
 
 def real_order(basis_tree):
-    """all non-dummy basis sets in a canonical order that does not depend on how children are listed"""
-    bs = [b for b in basis_tree.basis_list if not isinstance(b, BasisDummy)]
+    """all basis sets with more than one basis function in a canonical order that does not depend on how children are
+    listed.  Basis sets with nbas == 1 (BasisDummy, but also e.g. BasisSHO(nbas=1)) carry no axis in TTNS.todense: the
+    library squeezes every size-1 physical axis."""
+    bs = [b for b in basis_tree.basis_list if b.nbas > 1]
     return sorted(bs, key=lambda b: str(b.dofs))
 
 
